@@ -122,7 +122,7 @@ fn cases_for(open: &Node, coins: &[(CoinID, u128, u64)], difficulties: &[(u32, b
     out
 }
 
-fn run_world(run: &Run, net: NetID, ages: &[u64], difficulties: &[(u32, bool)], thorough: bool) {
+pub fn run_world(run: &Run, net: NetID, ages: &[u64], difficulties: &[(u32, bool)], thorough: bool) {
     let eng = Engine::new(run);
     let (_w, root) = root(net, 0, net != NetID::Mainnet);
     // block 1: split the genesis coin into puzzle coins
